@@ -9,7 +9,8 @@ import (
 //
 //	t1(a,b,c) key(a) index(b)        a int, b string, c int
 //	t2(a,d)   key(a,d) index(d)      composite key; n:1 to t1 on a
-//	t3(b,e)   key(b)                 1:n from t3 to t1 on b
+//	t3(b,e)   key(b) index unique(e) 1:n from t3 to t1 on b; e unique among its non-empty values
+//	                                 (a unique index stores its empty values with the key appended)
 //	t4(a,b,c) key(a) index(b,c)      same columns as t1 (union/intersect/minus), multi column index
 //	s1(f,g)   key()                  singleton table
 //	v1 = t1 join t3                  view
@@ -32,7 +33,7 @@ func newDB(rows map[string][][]Val) *DB {
 	}
 	add(&TableDef{Name: "t1", Cols: []string{"a", "b", "c"}, Keys: [][]string{{"a"}}, Indexes: [][]string{{"b"}}})
 	add(&TableDef{Name: "t2", Cols: []string{"a", "d"}, Keys: [][]string{{"a", "d"}}, Indexes: [][]string{{"d"}}})
-	add(&TableDef{Name: "t3", Cols: []string{"b", "e"}, Keys: [][]string{{"b"}}})
+	add(&TableDef{Name: "t3", Cols: []string{"b", "e"}, Keys: [][]string{{"b"}}, Uniques: [][]string{{"e"}}})
 	add(&TableDef{Name: "t4", Cols: []string{"a", "b", "c"}, Keys: [][]string{{"a"}}, Indexes: [][]string{{"b", "c"}}})
 	add(&TableDef{Name: "s1", Cols: []string{"f", "g"}, Keys: [][]string{{}}})
 	db.Views["v1"] = Binary("join", Table("t1"), Table("t3"))
@@ -52,7 +53,7 @@ func Variants() map[string]*DB {
 		"t1": {row(vi(0), vs(""), vi(0)), row(vi(1), vs("x"), vi(1)), row(vi(2), vs("x"), vi(1)),
 			row(vi(3), vs("y"), vs("")), row(vi(4), vs(""), vi(2)), row(vi(-1), vs("Y"), vi(1))},
 		"t2": {row(vi(1), vi(1)), row(vi(1), vi(2)), row(vi(2), vi(2)), row(vi(3), vi(0)), row(vi(9), vi(2)), row(vi(0), vs(""))},
-		"t3": {row(vs(""), vi(0)), row(vs("x"), vi(1)), row(vs("y"), vi(1)), row(vs("z"), vs(""))},
+		"t3": {row(vs(""), vi(0)), row(vs("x"), vi(1)), row(vs("y"), vs("")), row(vs("z"), vs(""))},
 		"t4": {row(vi(1), vs("x"), vi(1)), row(vi(2), vs("x"), vi(2)), row(vi(4), vs(""), vi(2)),
 			row(vi(6), vs("y"), vs("")), row(vi(0), vs(""), vi(0))},
 		"s1": {row(vs(""), vi(0))},
